@@ -236,6 +236,7 @@ Definition reconcile_tr (t : tr_spec) (st : ro_status) (w : wl) (br : option bre
       | _ => plain (reconcile sp st w br)
       end
     | RpDisabling =>
+      if wl_exists w && negb (wl_consistent w) then out (Some s) br false true false [] g else
       let '(done, s1, br', anno, ws, g', err) := do_finalising_tr t s w br FrDisabled false n g in
       if err then out None br anno false true ws g'
       else out (Some (if done then set_rphase s1 RpDisabled else s1)) br' anno (negb done) false ws g'
